@@ -43,7 +43,7 @@ func runC15(c *core.Ctx, r *core.Reporter) {
 // and princ no longer agrees with ~A.
 func c15force(c *core.Ctx, r *core.Reporter) {
 	const rule = "C15.force"
-	r.Rule(rule, "in every function that assigns a constant to a control field of a private Printer copy and refreshes that copy from the dynamic bindings (Printer.ScopedUpdate), no refresh is reachable after such an assignment: the forced setting (princ/~A: escape off; prin1/~S: escape on) must win over a binding of the corresponding *print-...* variable", 8)
+	r.Rule(rule, "in every function of pkg/cl (the printing built-ins and the format engine) that assigns a constant to a control field of a private Printer copy and refreshes that copy from the dynamic bindings (Printer.ScopedUpdate), no refresh is reachable after such an assignment: the forced setting (princ/~A: escape off; prin1/~S: escape on) must win over a binding of the corresponding *print-...* variable", 8)
 	su := c.LookupFunc("", "Printer.ScopedUpdate")
 	if su == nil {
 		r.Undecided(rule, "slip.(Printer).ScopedUpdate", "-", "anchor does not resolve")
@@ -51,7 +51,9 @@ func c15force(c *core.Ctx, r *core.Reporter) {
 	}
 	suFn := c.SSAFunc(su)
 	for _, fn := range c.ModuleFuncs() {
-		if takesTestingT(fn) || fn.Blocks == nil {
+		// the printing built-ins and the format engine; other packages (the load-form writer pp) start from
+		// defaults that scoped bindings are meant to override
+		if takesTestingT(fn) || fn.Blocks == nil || fn.Pkg == nil || fn.Pkg.Pkg.Path() != clPath {
 			continue
 		}
 		type ev struct {
